@@ -2,7 +2,6 @@ package main
 
 import (
 	"fmt"
-	"go/ast"
 	"go/constant"
 	"go/token"
 	"go/types"
@@ -48,55 +47,128 @@ func registryUsedBy(p *Program, fn *ssa.Function) *types.Var {
 	return found
 }
 
+// extractRegistry reads the dispatcher table from the package initialiser: a map made there, filled with
+// (constant function code -> constructor) entries and stored into the variable. The type a constructor
+// allocates is read from its body (whatever its form: function literal, named function, generic
+// instantiation): every return hands out a fresh allocation of one tagged message struct.
 func extractRegistry(p *Program, v *types.Var) (*Registry, error) {
-	pkg := p.ByPath[v.Pkg().Path()]
 	reg := &Registry{Var: v, Pos: v.Pos()}
-	var lit *ast.CompositeLit
-	for _, f := range pkg.Syntax {
-		for _, d := range f.Decls {
-			gd, ok := d.(*ast.GenDecl)
-			if !ok || gd.Tok != token.VAR {
-				continue
-			}
-			for _, s := range gd.Specs {
-				vs := s.(*ast.ValueSpec)
-				for i, n := range vs.Names {
-					if pkg.TypesInfo.Defs[n] == v && i < len(vs.Values) {
-						lit, _ = vs.Values[i].(*ast.CompositeLit)
-					}
-				}
-			}
-		}
+	spkg := p.SSAPkgs[v.Pkg().Path()]
+	if spkg == nil {
+		return nil, fmt.Errorf("registry %s: package not loaded", v.Name())
 	}
-	if lit == nil {
+	g, _ := spkg.Members[v.Name()].(*ssa.Global)
+	init := spkg.Func("init")
+	if g == nil || init == nil {
+		return nil, fmt.Errorf("registry %s: variable or initialiser not found", v.Name())
+	}
+	var mk ssa.Value
+	for _, sv := range storedInto(init, g) {
+		if mk != nil {
+			return nil, fmt.Errorf("registry %s is assigned more than once", v.Name())
+		}
+		mk = sv
+	}
+	mm, ok := mk.(*ssa.MakeMap)
+	if !ok {
 		return nil, fmt.Errorf("registry %s is not initialised by a map literal", v.Name())
 	}
-	for _, el := range lit.Elts {
-		kv, ok := el.(*ast.KeyValueExpr)
-		if !ok {
-			return nil, fmt.Errorf("registry %s: non key:value element", v.Name())
-		}
-		tv := pkg.TypesInfo.Types[kv.Key]
-		if tv.Value == nil {
-			return nil, fmt.Errorf("registry %s: non-constant key at %s", v.Name(), p.Pos(kv.Key.Pos()))
-		}
-		k, _ := constant.Int64Val(constant.ToInt(tv.Value))
-		ent := RegEntry{Key: k, Pos: kv.Pos()}
-		if fl, ok := kv.Value.(*ast.FuncLit); ok && len(fl.Body.List) == 1 {
-			if rs, ok := fl.Body.List[0].(*ast.ReturnStmt); ok && len(rs.Results) == 1 {
-				t := pkg.TypesInfo.TypeOf(rs.Results[0])
-				if pt, ok := t.(*types.Pointer); ok {
-					if n, ok := types.Unalias(pt.Elem()).(*types.Named); ok {
-						ent.Type = relPkg(n.Obj().Pkg().Path()) + "." + n.Obj().Name()
-					}
+	for _, b := range init.Blocks {
+		for _, in := range b.Instrs {
+			mu, ok := in.(*ssa.MapUpdate)
+			if !ok || mu.Map != ssa.Value(mm) {
+				continue
+			}
+			kc, ok := mu.Key.(*ssa.Const)
+			if !ok || kc.Value == nil {
+				return nil, fmt.Errorf("registry %s: non-constant key at %s", v.Name(), p.Pos(mu.Pos()))
+			}
+			k, _ := constant.Int64Val(constant.ToInt(kc.Value))
+			ent := RegEntry{Key: k, Pos: mu.Pos()}
+			var ctor *ssa.Function
+			switch f := mu.Value.(type) {
+			case *ssa.Function:
+				ctor = f
+			case *ssa.MakeClosure:
+				ctor, _ = f.Fn.(*ssa.Function)
+			case *ssa.ChangeType:
+				if ff, ok := f.X.(*ssa.Function); ok {
+					ctor = ff
 				}
 			}
+			if ctor != nil {
+				if !ent.Pos.IsValid() {
+					ent.Pos = ctor.Pos()
+				}
+				ent.Type, ent.Detail = constructedType(ctor, 0)
+			} else {
+				ent.Detail = "the table entry is not a function"
+			}
+			reg.Entries = append(reg.Entries, ent)
 		}
-		if ent.Type == "" {
-			ent.Detail = "constructor is not a single `return new(T)`"
-		}
-		reg.Entries = append(reg.Entries, ent)
+	}
+	if len(reg.Entries) == 0 {
+		return nil, fmt.Errorf("registry %s has no entries", v.Name())
 	}
 	sort.Slice(reg.Entries, func(i, j int) bool { return reg.Entries[i].Key < reg.Entries[j].Key })
 	return reg, nil
+}
+
+// constructedType: the named struct type a constructor allocates afresh on every return.
+func constructedType(fn *ssa.Function, depth int) (string, string) {
+	if fn == nil || fn.Blocks == nil || depth > 3 {
+		return "", "constructor has no body"
+	}
+	name := ""
+	for _, b := range fn.Blocks {
+		for _, in := range b.Instrs {
+			ret, ok := in.(*ssa.Return)
+			if !ok {
+				continue
+			}
+			if len(ret.Results) != 1 {
+				return "", "constructor does not return exactly one value"
+			}
+			v := ret.Results[0]
+			for {
+				switch x := v.(type) {
+				case *ssa.MakeInterface:
+					v = x.X
+					continue
+				case *ssa.ChangeInterface:
+					v = x.X
+					continue
+				case *ssa.ChangeType:
+					v = x.X
+					continue
+				}
+				break
+			}
+			var n string
+			switch x := v.(type) {
+			case *ssa.Alloc:
+				if !x.Heap {
+					return "", "constructor returns something other than a fresh allocation"
+				}
+				if nt, ok := types.Unalias(x.Type().Underlying().(*types.Pointer).Elem()).(*types.Named); ok && nt.Obj().Pkg() != nil {
+					n = relPkg(nt.Obj().Pkg().Path()) + "." + nt.Obj().Name()
+				}
+			case *ssa.Call:
+				if f := x.Call.StaticCallee(); f != nil && inModule(f) {
+					n, _ = constructedType(f, depth+1)
+				}
+			}
+			if n == "" {
+				return "", "constructor does not return a freshly allocated message struct"
+			}
+			if name != "" && name != n {
+				return "", "constructor returns different types"
+			}
+			name = n
+		}
+	}
+	if name == "" {
+		return "", "constructor does not return a freshly allocated message struct"
+	}
+	return name, ""
 }
